@@ -196,6 +196,21 @@ def judge(s, sink):
         again = fsic.parse_model(s)
         if again != symbols:
             v.append(('second-parse-differs', [tuple(x) for x in symbols][:3], [tuple(x) for x in again][:3], 'parsing the same text twice gives different results'))
+        else:
+            snapshot = list(symbols)
+            again.append('edited by the caller')
+            del again[:1]
+            third = fsic.parse_model(s)
+            aliased = third != snapshot or symbols != snapshot or third is again or again is symbols
+            # whatever was aliased: undo the edit in every list that may be shared, and judge the rest on the original result
+            for shared in (again, third, symbols):
+                try:
+                    shared[:] = snapshot
+                except Exception:
+                    pass
+            symbols = list(snapshot)
+            if aliased:
+                v.append(('parse-result-aliased', [tuple(x) for x in symbols][:2], [tuple(x) if isinstance(x, tuple) else x for x in third][:2], 'a parse result edited by its caller came back from a later parse of the same text'))
     except Exception as e:
         v.append(('second-parse-raises:%s' % type(e).__name__, 'same result', repr(e)[:160], 'parsing the same text a second time raises'))
     # build + instantiate
